@@ -209,7 +209,8 @@ def contract_stub(spec_getter):
         if spec.requires is not None:
             cx.require('requires', spec.requires(c0))
         outs = []
-        decl = ex.spec.classes[st.rec(recv).cls]
+        # plain functions called from plain functions have no receiver object (then nothing can be in `modifies`)
+        decl = ex.spec.classes[st.rec(recv).cls] if recv is not None else {}
 
         def havoc_state():
             s2 = st.fork()
@@ -218,12 +219,20 @@ def contract_stub(spec_getter):
                 v = ex.fresh(s2, decl[f], 'mod_' + f)
                 sets[f] = v
                 s2.set_field(recv, f, v)
+            # objects allocated for havocked object-typed fields must exist in the caller's state too
+            for a_, cell_ in s2.heap.items():
+                if isinstance(a_, int) and a_ not in st.heap:
+                    st.heap[a_] = cell_
+            if s2.next_addr != st.next_addr and '__created__' in s2.heap:
+                st.heap['__created__'] = s2.heap['__created__']
+            st.next_addr = max(st.next_addr, s2.next_addr)
             return s2, sets
         s2, sets = havoc_state()
         r = ex.fresh(s2, spec.returns, 'ret_' + spec.qualname.replace('.', '_')) if spec.returns else VNone
         c1 = Ctx(ex, st, s2, recv, result=r, args=args)
         o = Out(ret=r, sets=sets, assume=[f(c1) for _l, f in spec.ensures] + [f(c1) for _l, f in spec.always])
         o.assume.extend(s2.pc[len(st.pc):])
+        o.normal = True
         outs.append(o)
         for cls, post in spec.raises.items():
             s3, sets3 = havoc_state()
